@@ -26,6 +26,8 @@ type groupCase struct {
 	GroupNull bool        `json:"group_null"`
 	// ByDefault: call Distinct()/GroupBy() without a Columns option.
 	ByDefault bool `json:"by_default,omitempty"`
+	// Perm, when set, lays logical row r at physical position Perm[r] (instead of Shape)
+	Perm []int `json:"perm,omitempty"`
 }
 
 func c04KeyAlphabet(k model.Kind) []model.Cell {
@@ -48,12 +50,12 @@ func c04KeyAlphabet(k model.Kind) []model.Cell {
 var c04ValCols = func() []model.Col {
 	nan := math.NaN()
 	return []model.Col{
-		{Name: "vi", Kind: model.Int, Cells: []model.Cell{model.I(3), model.I(1), model.I(-2), model.I(5), model.I(1)}},
-		{Name: "vf", Kind: model.Float, Cells: []model.Cell{model.F(1e16), model.F(1), model.F(-1e16), model.F(0.5), model.F(3)}},
-		{Name: "vn", Kind: model.Float, Cells: []model.Cell{model.F(nan), model.F(2), model.F(nan), model.F(1), model.F(4)}},
-		{Name: "vb", Kind: model.Bool, Cells: []model.Cell{model.B(true), model.B(false), model.B(true), model.B(true), model.B(false)}},
-		{Name: "vs", Kind: model.String, Cells: []model.Cell{model.S("p"), model.Null(), model.S(""), model.S("q"), model.S("r")}},
-		{Name: "ve", Kind: model.Enum, EnumVals: []string{"hi", "lo"}, Cells: []model.Cell{model.S("lo"), model.S("hi"), model.Null(), model.S("lo"), model.S("hi")}},
+		{Name: "vi", Kind: model.Int, Cells: []model.Cell{model.I(3), model.I(1), model.I(-2), model.I(5), model.I(1), model.I(8)}},
+		{Name: "vf", Kind: model.Float, Cells: []model.Cell{model.F(1e16), model.F(1), model.F(-1e16), model.F(0.5), model.F(3), model.F(-7)}},
+		{Name: "vn", Kind: model.Float, Cells: []model.Cell{model.F(nan), model.F(2), model.F(nan), model.F(1), model.F(4), model.F(0.25)}},
+		{Name: "vb", Kind: model.Bool, Cells: []model.Cell{model.B(true), model.B(false), model.B(true), model.B(true), model.B(false), model.B(false)}},
+		{Name: "vs", Kind: model.String, Cells: []model.Cell{model.S("p"), model.Null(), model.S(""), model.S("q"), model.S("r"), model.S("t")}},
+		{Name: "ve", Kind: model.Enum, EnumVals: []string{"hi", "lo"}, Cells: []model.Cell{model.S("lo"), model.S("hi"), model.Null(), model.S("lo"), model.S("hi"), model.Null()}},
 	}
 }()
 
@@ -250,6 +252,9 @@ func groupbyFns(c groupCase) []groupby.ConfigFunc {
 func runGroupCase(c groupCase) *core.Failure {
 	c.Frame.Fix()
 	qf := model.BuildShape(c.Frame, c.Shape)
+	if c.Perm != nil {
+		qf = model.BuildPermuted(c.Frame, c.Perm)
+	}
 	in := model.Observe(qf)
 	if in.Err {
 		return core.Failf("could not build input: %s", in.ErrText)
@@ -549,6 +554,47 @@ func groupLayerRun(ctx *core.Ctx, op string) {
 	}
 }
 
+// permLayerRun: one int key column over every key pattern, every physical arrangement of the rows
+// (all permutations), so that a group's rows sit at arbitrary physical positions in arbitrary order.
+func permLayerRun(ctx *core.Ctx, op string) {
+	maxN := 5
+	if !ctx.Quick() {
+		maxN = 6
+	}
+	for n := 3; n <= maxN; n++ {
+		forEachKeyPattern(n, func(keys []int, distinct int) {
+			for _, k := range keys {
+				if k < 0 {
+					return // int keys: no nulls
+				}
+			}
+			kc := model.Col{Name: "k1", Kind: model.Int, Cells: make([]model.Cell, n)}
+			for i, k := range keys {
+				kc.Cells[i] = model.I(k)
+			}
+			f := model.Frame{N: n, Cols: []model.Col{kc}}
+			for _, vc := range c04ValCols {
+				vc.Cells = vc.Cells[:n]
+				if op == "distinct" && vc.Name != "vb" && vc.Name != "vi" {
+					continue
+				}
+				f.Cols = append(f.Cols, vc)
+			}
+			forEachPerm(n, func(p []int) {
+				if !ctx.Mine() {
+					return
+				}
+				c := groupCase{Op: op, Frame: f, By: []string{"k1"}, Perm: cloneInts(p)}
+				ctx.Exec(c, func() *core.Failure { return runGroupCase(c) })
+				ctx.Outcome("api/permuted-layout")
+				if distinct > 1 && distinct < n {
+					ctx.Nontrivial(fmt.Sprintf("perm|%v|%v", keys, p))
+				}
+			})
+		})
+	}
+}
+
 func init() {
 	common := []string{
 		"layer 1 drives the repository's hash table (internal/grouper) through its Comparable interface with harness-chosen hash values; layer 2 uses the public API with the real runtime hash",
@@ -563,12 +609,13 @@ func init() {
 			"Non-trivial = two different keys share a bucket (table layer) / more than one group and fewer groups than rows (API layer); distinct by case content.",
 		Assumptions: common,
 		Bound: map[string]string{
-			"quick":    "table: all patterns n<=5 x 6 hash values, n=6 x 4 hash values, growth families 5..11 keys with <=2 repeats (thinned); API: all frames n<=3, 25 key-type pairs",
-			"thorough": "table: all patterns n<=6 x 6 hash values, n<=8 x 4 hash values, growth families with all <=2 repeats; API: all frames n<=4",
+			"quick":    "table: all patterns n<=5 x 6 hash values, n=6 x 4 hash values, growth families 5..11 keys with <=2 repeats (thinned); API: all frames n<=3, 25 key-type pairs; every key pattern of 3..5 rows in every physical permutation",
+			"thorough": "table: all patterns n<=6 x 6 hash values, n<=8 x 4 hash values, growth families with all <=2 repeats; API: all frames n<=4; every key pattern of 3..6 rows in every physical permutation",
 		},
 		Run: func(ctx *core.Ctx) {
 			tableLayerRun(ctx, "groupby")
 			groupLayerRun(ctx, "groupby")
+			permLayerRun(ctx, "groupby")
 		},
 		Replay: replayGroup,
 	})
@@ -585,6 +632,7 @@ func init() {
 		Run: func(ctx *core.Ctx) {
 			tableLayerRun(ctx, "distinct")
 			groupLayerRun(ctx, "distinct")
+			permLayerRun(ctx, "distinct")
 		},
 		Replay: replayGroup,
 	})
